@@ -18,9 +18,10 @@ pub struct Slot {
     pub since_ms: AtomicU64,
     pub used: AtomicBool,
     pub transport: AtomicI32, // 0 unix 1 tcp
+    pub limit_ms: AtomicU64,  // u64::MAX = the call carries no time limit; 0 = try variant
 }
 
-pub const OPS: [&str; 6] = ["read", "write", "accept", "connect", "read_with_timeout", "accept_with_timeout"];
+pub const OPS: [&str; 9] = ["read", "write", "accept", "connect", "read_with_timeout", "accept_with_timeout", "connect_with_timeout", "try_accept", "try_connect"];
 
 #[allow(clippy::declare_interior_mutable_const)]
 const EMPTY: Slot = Slot {
@@ -32,6 +33,7 @@ const EMPTY: Slot = Slot {
     since_ms: AtomicU64::new(0),
     used: AtomicBool::new(false),
     transport: AtomicI32::new(0),
+    limit_ms: AtomicU64::new(u64::MAX),
 };
 pub static SLOTS: [Slot; NSLOTS] = [EMPTY; NSLOTS];
 
@@ -67,6 +69,12 @@ pub fn release(s: &Slot) {
 
 /// run one blocking call of the library with its (op, fd, awaited events) visible to the monitor
 pub fn tracked<T>(s: &Slot, op: usize, transport: i32, fd: i32, events: i16, f: impl FnOnce() -> T) -> T {
+    tracked_timed(s, op, transport, fd, events, None, f)
+}
+
+/// like `tracked`; `limit` = Some(d) for time-limited calls (Some(ZERO) for try variants)
+pub fn tracked_timed<T>(s: &Slot, op: usize, transport: i32, fd: i32, events: i16, limit: Option<std::time::Duration>, f: impl FnOnce() -> T) -> T {
+    s.limit_ms.store(limit.map_or(u64::MAX, |d| d.as_millis() as u64), Relaxed);
     s.op.store(op as i32, Relaxed);
     s.fd.store(fd, Relaxed);
     s.events.store(i32::from(events), Relaxed);
@@ -92,6 +100,7 @@ pub fn spawn_monitor(grace_ms: u64) {
     std::thread::spawn(move || {
         let pid = unsafe { sys::getpid() };
         let mut streak: [(u64, u32, u32); NSLOTS] = [(0, 0, 0); NSLOTS]; // (seq, ready-parked samples, lost samples)
+        let mut tstreak: [(u64, u32); NSLOTS] = [(0, 0); NSLOTS]; // time-limited call inside a system call without a timeout
         loop {
             std::thread::sleep(std::time::Duration::from_millis(300));
             // harness-level watchdog: one transfer stuck for two minutes is inconclusive, not a verdict
@@ -113,6 +122,42 @@ pub fn spawn_monitor(grace_ms: u64) {
                     continue;
                 }
                 let seq = s.seq.load(Relaxed);
+                // A time-limited (or try) call may only ever wait in a system call that carries its
+                // limit. Refuting: limit long passed, thread inside read/accept4/connect/... on a
+                // descriptor without O_NONBLOCK, same call, five samples in a row.
+                let lim = s.limit_ms.load(Relaxed);
+                if seq % 2 == 1 && lim != u64::MAX && now_ms().saturating_sub(s.since_ms.load(Relaxed)) > lim + 1000 {
+                    if tstreak[i].0 != seq {
+                        tstreak[i] = (seq, 0);
+                    }
+                    let sc = sys::task_syscall(pid, s.tid.load(Relaxed)).unwrap_or_default();
+                    let mut it = sc.split_whitespace();
+                    let nr: i64 = it.next().and_then(|x| x.parse().ok()).unwrap_or(-1);
+                    let a0 = it.next().and_then(|x| i64::from_str_radix(x.trim_start_matches("0x"), 16).ok()).unwrap_or(-1);
+                    let blocking_kind = matches!(nr, 0 | 1 | 42 | 43 | 44 | 45 | 46 | 47 | 288);
+                    let nb = if blocking_kind { sys::is_nonblock(a0 as i32) } else { None };
+                    if blocking_kind && nb == Some(false) && s.seq.load(Relaxed) == seq {
+                        tstreak[i].1 += 1;
+                        if tstreak[i].1 >= 5 {
+                            let op = OPS[s.op.load(Relaxed) as usize];
+                            let tr = tname(s.transport.load(Relaxed));
+                            let what = if lim == 0 { "try-call-parked-in-blocking-syscall" } else { "timed-call-parked-in-blocking-syscall" };
+                            vh::viol(
+                                &format!("C16/{tr}/{op}/{what}"),
+                                &format!(
+                                    "{{\"op\":\"{op}\",\"limit_ms\":{lim},\"pending_ms\":{},\"thread_syscall\":{},\"descriptor\":{a0},\"descriptor_O_NONBLOCK\":false,\"samples\":{},\"case\":{}}}",
+                                    now_ms().saturating_sub(s.since_ms.load(Relaxed)),
+                                    vh::js(&sc),
+                                    tstreak[i].1,
+                                    vh::js(&CASE_DESC.lock().unwrap())
+                                ),
+                            );
+                            flush_exit(3);
+                        }
+                    } else {
+                        tstreak[i].1 = 0;
+                    }
+                }
                 if seq % 2 == 0 || now_ms().saturating_sub(s.since_ms.load(Relaxed)) < grace_ms {
                     streak[i] = (seq, 0, 0);
                     continue;
